@@ -1041,6 +1041,9 @@ struct Zeroconf {
     /// Active "Browse" commands.
     service_queriers: HashMap<String, Sender<ServiceEvent>>, // <ty_domain, channel::sender>
 
+    /// The `ty_domain`s in `service_queriers` that are "cache-only": no query is sent for them.
+    cache_only_queriers: HashSet<String>,
+
     /// Active "ResolveHostname" commands.
     ///
     /// The timestamps are set at the future timestamp when the command should timeout.
@@ -1254,6 +1257,7 @@ impl Zeroconf {
             dns_registry_map,
             hostname_resolvers: HashMap::new(),
             service_queriers: HashMap::new(),
+            cache_only_queriers: HashSet::new(),
             retransmissions: Vec::new(),
             counters: HashMap::new(),
             poller,
@@ -1342,6 +1346,7 @@ impl Zeroconf {
         let browse_types: Vec<String> = self.service_queriers.keys().cloned().collect();
         for ty_domain in browse_types {
             debug!("Stopping browse during shutdown: {}", &ty_domain);
+            self.cache_only_queriers.remove(&ty_domain);
             if let Some(sender) = self.service_queriers.remove(&ty_domain) {
                 // Notify the client
                 if let Err(e) = sender.send(ServiceEvent::SearchStopped(ty_domain.clone())) {
@@ -2042,6 +2047,9 @@ impl Zeroconf {
         // address records from being attributed to the new interface.
         if let Some(my_intf) = self.my_intfs.get(&if_index) {
             for ty in self.service_queriers.keys() {
+                if self.cache_only_queriers.contains(ty) {
+                    continue;
+                }
                 self.send_query_on_intf(ty, RRType::PTR, my_intf);
             }
         }
@@ -3615,6 +3623,18 @@ impl Zeroconf {
             //
             // If there is already a `listener`, it will be updated, i.e. overwritten.
             self.service_queriers.insert(ty.clone(), listener.clone());
+            if cache_only {
+                self.cache_only_queriers.insert(ty.clone());
+            } else {
+                self.cache_only_queriers.remove(&ty);
+            }
+
+            // Remove pending browse commands of an earlier browse for the same `ty`,
+            // as this browse replaces it.
+            self.retransmissions.retain(|rerun| match &rerun.command {
+                Command::Browse(t, ..) => t != &ty,
+                _ => true,
+            });
 
             // if we already have the records in our cache, just send them
             self.query_cache_for_service(&ty, &listener, now);
@@ -3631,15 +3651,6 @@ impl Zeroconf {
 
         self.send_query(&ty, RRType::PTR);
         self.increase_counter(Counter::Browse, 1);
-
-        if !repeating {
-            // Remove pending browse commands of an earlier browse for the same `ty`,
-            // as this browse schedules its own below.
-            self.retransmissions.retain(|rerun| match &rerun.command {
-                Command::Browse(t, ..) => t != &ty,
-                _ => true,
-            });
-        }
 
         let next_time = now + (next_delay * 1000) as u64;
         let max_delay = 60 * 60;
@@ -3706,8 +3717,10 @@ impl Zeroconf {
     fn exec_command_resolve(&mut self, instance: String, try_count: u16) {
         // This follow-up was scheduled for a browse that listed `instance`. If no open
         // browse lists it any more (e.g. `stop_browse`), there is nothing left to ask for.
+        // A cache-only browse does not ask at all.
         let wanted = self.cache.all_ptr().iter().any(|(ty_domain, records)| {
             self.service_queriers.contains_key(ty_domain)
+                && !self.cache_only_queriers.contains(ty_domain)
                 && records.iter().any(|r| {
                     r.record
                         .any()
@@ -3845,6 +3858,8 @@ impl Zeroconf {
                     }
                     i += 1;
                 }
+
+                self.cache_only_queriers.remove(&ty);
 
                 // Remove cache entries.
                 self.cache.remove_service_type(&ty_domain);
@@ -3985,6 +4000,11 @@ impl Zeroconf {
         let mut query_addr_count = 0;
 
         for (ty_domain, _sender) in self.service_queriers.iter() {
+            if self.cache_only_queriers.contains(ty_domain) {
+                // cache-only: no query is sent, the records just run out.
+                continue;
+            }
+
             let refreshed_timers = self.cache.refresh_due_ptr(ty_domain);
             if !refreshed_timers.is_empty() {
                 trace!("sending refresh query for PTR: {}", ty_domain);
